@@ -522,6 +522,9 @@ func (streamSetSelf *StreamSetDef[T, R]) Union(input *StreamSetDef[T, R]) *Strea
 			}
 			v = v.Extend(v2)
 			result.MapSetDef[k] = v
+		} else if ok {
+			// The other side has nothing under this key: keep our own stream
+			result.MapSetDef[k] = v
 		}
 	}
 
